@@ -61,6 +61,13 @@ type Case struct {
 	// this one and stays open throughout (reporters must not share state such as a clock: the
 	// timestamps of this reporter are bounded by ITS construction)
 	OtherMS int `json:"otherMS,omitempty"`
+	// Wide > 0: one more histogram "wide-h" with that many bounds (value or duration flavour) is
+	// allocated after the producers are done; the buckets WideIdx (mod the number of buckets) each
+	// get index+1 samples, so that a decoded bucket metric tells which bucket it is, and the bucket
+	// ids can be compared: "ids increasing with the bounds" - as the strings they are, and as numbers
+	Wide    int   `json:"wide,omitempty"`
+	WideDur bool  `json:"wideDur,omitempty"`
+	WideIdx []int `json:"wideIdx,omitempty"`
 }
 
 func tagStr() *rapid.Generator[pbt.S] {
@@ -135,6 +142,17 @@ func gen(t *rapid.T) Case {
 	}
 	if np >= 2 && (rapid.IntRange(0, 5).Draw(t, "shared") == 0 || (c.MaxPacket == 0 || c.MaxPacket == 65000) && rapid.Bool().Draw(t, "sharedBig")) {
 		c.SharedBurst = rapid.SampledFrom([]int{50, 500, 3000}).Draw(t, "sharedBurst")
+	}
+	if rapid.IntRange(0, 3).Draw(t, "wide?") == 0 {
+		c.Wide = rapid.SampledFrom([]int{2, 5, 9, 10, 40, 99, 100, 998, 999, 1000, 1001, 9998, 9999, 10000, 10001, 12000}).Draw(t, "wide")
+		c.WideDur = rapid.Bool().Draw(t, "wideDur")
+		c.WideIdx = []int{0, 1, c.Wide - 1, c.Wide}
+		for _, x := range []int{9, 10, 11, 99, 100, 101, 999, 1000, 1001, 9999, 10000, 10001} {
+			if x <= c.Wide {
+				c.WideIdx = append(c.WideIdx, x)
+			}
+		}
+		c.WideIdx = append(c.WideIdx, rapid.SliceOfN(rapid.IntRange(0, c.Wide), 0, 4).Draw(t, "wideIdx")...)
 	}
 	return c
 }
@@ -341,6 +359,39 @@ func run(c Case) (pbt.Outcome, error) {
 	}
 	close(start)
 	wg.Wait()
+	wideCount := map[int64]bool{}
+	if c.Wide > 0 {
+		wtags := map[string]string{"w": "1"}
+		var pairs []tally.BucketPair
+		var h tally.CachedHistogram
+		if c.WideDur {
+			spec := make(tally.DurationBuckets, c.Wide)
+			for j := range spec {
+				spec[j] = time.Duration(j) * time.Millisecond
+			}
+			h, pairs = r.AllocateHistogram("wide-h", wtags, spec), tally.BucketPairs(spec)
+		} else {
+			spec := make(tally.ValueBuckets, c.Wide)
+			for j := range spec {
+				spec[j] = float64(j)
+			}
+			h, pairs = r.AllocateHistogram("wide-h", wtags, spec), tally.BucketPairs(spec)
+		}
+		for _, x := range c.WideIdx {
+			i := ((x % len(pairs)) + len(pairs)) % len(pairs)
+			if wideCount[int64(i)+1] {
+				continue
+			}
+			wideCount[int64(i)+1] = true
+			if c.WideDur {
+				h.DurationBucket(pairs[i].LowerBoundDuration(), pairs[i].UpperBoundDuration()).ReportSamples(int64(i) + 1)
+			} else {
+				h.ValueBucket(pairs[i].LowerBoundValue(), pairs[i].UpperBoundValue()).ReportSamples(int64(i) + 1)
+			}
+			e := m3thrift.Metric{Name: "HIST:wide-h", Tags: []m3thrift.MetricTag{{Name: "w", Value: "1"}}, Value: m3thrift.MetricValue{MetricType: m3thrift.MetricType_COUNTER, Count: int64(i) + 1}}
+			want = append(want, reported{canon: m3h.Canon(e), ret: time.Now().UnixNano()})
+		}
+	}
 	if err := r.Close(); err != nil {
 		errs.Addf("Close returned %v", err)
 	}
@@ -366,6 +417,7 @@ func run(c Case) (pbt.Outcome, error) {
 		}
 		gotCount := map[string]int{}
 		type bucketSeen struct{ id, rng string }
+		wideIDs := map[int64]string{} // samples (= bucket index + 1) -> bucket id tag value
 		for gi, d := range s.Datagrams() {
 			_, batch, err := m3h.Decode(c.Binary, d)
 			if err != nil {
@@ -443,6 +495,13 @@ func run(c Case) (pbt.Outcome, error) {
 						}
 					}
 				}
+				if m.Name == "wide-h" && c.Wide > 0 && wideCount[m.Value.Count] {
+					for _, tg := range m.Tags {
+						if tg.Name == idName {
+							wideIDs[m.Value.Count] = tg.Value
+						}
+					}
+				}
 				canon := m3h.Canon(cm)
 				gotCount[canon]++
 				if _, ok := wantCount[canon]; ok {
@@ -452,6 +511,25 @@ func run(c Case) (pbt.Outcome, error) {
 					if m.Timestamp > latest[canon]+int64(time.Millisecond) {
 						errs.Addf("metric %q has timestamp %d, later than the return of its report call at %d", m.Name, m.Timestamp, latest[canon])
 					}
+				}
+			}
+		}
+		if len(wideIDs) > 0 {
+			var idx []int64
+			for k := range wideIDs {
+				idx = append(idx, k)
+			}
+			sort.Slice(idx, func(a, b int) bool { return idx[a] < idx[b] })
+			for j := 1; j < len(idx); j++ {
+				lo, hi := wideIDs[idx[j-1]], wideIDs[idx[j]]
+				nlo, err1 := strconv.Atoi(lo)
+				nhi, err2 := strconv.Atoi(hi)
+				if err1 != nil || err2 != nil {
+					continue // reported above
+				}
+				if !(lo < hi) || !(nlo < nhi) {
+					errs.Addf("destination %d: histogram with %d bounds: bucket %d has id %q and the higher bucket %d has id %q: the ids do not increase with the bounds (as strings and as numbers)", si, c.Wide, idx[j-1]-1, lo, idx[j]-1, hi)
+					break
 				}
 			}
 		}
@@ -482,6 +560,9 @@ func run(c Case) (pbt.Outcome, error) {
 	if c.OtherMS > 0 {
 		out.Classes = append(out.Classes, "another-reporter-open")
 	}
+	if c.Wide > 0 {
+		out.Classes = append(out.Classes, fmt.Sprintf("wide-histogram-digits=%d", len(fmt.Sprint(c.Wide))))
+	}
 	if math.IsNaN(0) {
 		out.Classes = nil
 	}
@@ -491,7 +572,7 @@ func run(c Case) (pbt.Outcome, error) {
 func TestC13(t *testing.T) {
 	pbt.Main(t, pbt.Prop[Case]{
 		ID: "C13", Name: "delivery",
-		Rule: "rapid-generated M3 reporter configurations (Compact/Binary, 1..3 real loopback destinations - in a quarter of the cases with an additional unreachable destination somewhere in the host list (sends to it fail), which must not disturb the live ones -, queue size 1..4096, common tags, packet size, default or custom bucket tag names) and 1..4 producer goroutines (real threads) started right after NewReporter, each a history of 1..12 Allocate*+Report*/Flush ops (and, in a sixth of the cases, bursts of 50..3000 distinct values per producer through ONE counter, gauge and timer handle shared by all producers) with arbitrary byte-string names, tag keys/values drawn from an alphabet rich in '=' (so that different tag maps have equal 'k=v' strings), full-range int64/float64 values, occasionally a name longer than MaxPacketSizeBytes (such a metric must still be delivered exactly once), histogram buckets of strictly increasing specs, repeats; then Close. Oracle per destination: every datagram decodes as exactly one well-formed one-way message with the configured common tags (service and env included); the multiset of decoded non-internal metrics (name, kind, value bits, tag set, bucket tags present) equals the multiset reported; timestamps within [construction, return of the report call] (+1ms); Close returned only after every emitted batch had been sent (all datagrams present). Non-trivial: >=2 distinct tag sets and >=2 datagrams. Distinct: FNV-64 of the case JSON.",
+		Rule: "rapid-generated M3 reporter configurations (Compact/Binary, 1..3 real loopback destinations - in a quarter of the cases with an additional unreachable destination somewhere in the host list (sends to it fail), which must not disturb the live ones -, queue size 1..4096, common tags, packet size, default or custom bucket tag names) and 1..4 producer goroutines (real threads) started right after NewReporter, each a history of 1..12 Allocate*+Report*/Flush ops (and, in a sixth of the cases, bursts of 50..3000 distinct values per producer through ONE counter, gauge and timer handle shared by all producers) with arbitrary byte-string names, tag keys/values drawn from an alphabet rich in '=' (so that different tag maps have equal 'k=v' strings), full-range int64/float64 values, occasionally a name longer than MaxPacketSizeBytes (such a metric must still be delivered exactly once), histogram buckets of strictly increasing specs, repeats; in a quarter of the cases one more value or duration histogram with 2..12000 bounds (sizes around the powers of ten) whose first, last and power-of-ten-neighbouring buckets each get index+1 samples; then Close. Oracle per destination: every datagram decodes as exactly one well-formed one-way message with the configured common tags (service and env included); the multiset of decoded non-internal metrics (name, kind, value bits, tag set, bucket tags present) equals the multiset reported; timestamps within [construction, return of the report call] (+1ms); the bucket ids of the wide histogram increase with the bucket index, compared as strings and as numbers; Close returned only after every emitted batch had been sent (all datagrams present). Non-trivial: >=2 distinct tag sets and >=2 datagrams. Distinct: FNV-64 of the case JSON.",
 		Gen:  gen, Run: run, HangAfter: 90 * time.Second,
 	})
 }
